@@ -30,6 +30,10 @@ def _conds(tier):
         # that repairs the heap in one direction only shows up in the drain (interior index 3)
         for sp in (0, 1, 2):
             script("R", 7, fixk=3, heappre=1, split12=sp, timeout=900)
+        # one add after every heap-ordered array of 5 entries (6 events: the smallest size at which an add that
+        # skips the sift for "large" keys shows in the drain), split by the order of events #1 and #2
+        for sp in (0, 1, 2):
+            script("A", 5, heappre=1, split12=sp, timeout=900)
         script("A", 3)
         script("P", 3)
         script("X", 3)
@@ -47,6 +51,9 @@ def _conds(tier):
     else:
         for k in range(5):
             script("R", 5, fixk=k, timeout=1500)
+        for n in (5, 6, 7):
+            for sp in (0, 1, 2):
+                script("A", n, heappre=1, split12=sp, timeout=2400)
         for k in range(7):
             for sp in (0, 1, 2):
                 script("R", 7, fixk=k, heappre=1, split12=sp, timeout=2400)
